@@ -275,6 +275,7 @@ package config
 //@   ensures fd: FD(f)
 //@   ensures array: (arr(f.flagList) == arr(old(f.flagList)) && off(f.flagList) == off(old(f.flagList)) && cap(f.flagList) == cap(old(f.flagList))) || fresh(arr(f.flagList))
 //@   ensures names: forall k string {has(f.flagMap, k)} :: has(f.flagMap, k) ==> old(has(f.flagMap, k)) || goodName(k)
+//@   ensures mapkeep: f.flagMap == old(f.flagMap) && forall k string {has(f.flagMap, k)} :: old(has(f.flagMap, k)) ==> has(f.flagMap, k) && f.flagMap[k] == old(f.flagMap[k])
 //@   ghost before call Underscore assert env: arg0 == f.envKeyPrefix + group + field.Name && arg1
 //@   ghost before call parseStructFields assert group: arg2 == group + field.Name + "_"
 //@   loop 1
@@ -286,5 +287,28 @@ package config
 //@     invariant len(f.flagList) >= len(old(f.flagList)) && forall j int {f.flagList[j]} :: 0 <= j && j < len(old(f.flagList)) ==> f.flagList[j] == old(f.flagList)[j]
 //@     invariant forall k string {has(f.flagMap, k)} :: has(f.flagMap, k) ==> old(has(f.flagMap, k)) || goodName(k)
 //@     invariant (arr(f.flagList) == arr(old(f.flagList)) && off(f.flagList) == off(old(f.flagList)) && cap(f.flagList) == cap(old(f.flagList))) || fresh(arr(f.flagList))
+//@     invariant forall k string {has(f.flagMap, k)} :: old(has(f.flagMap, k)) ==> has(f.flagMap, k) && f.flagMap[k] == old(f.flagMap[k])
 //@     decreases rtNumField(structType) - i
 
+
+// NewFlagSet: a pointer to a struct yields a fresh FlagSet whose definitions are well-formed (FD), whose environment
+// prefix and carrier names are the documented ones, whose two built-in flags view its own cells, and in which every
+// user-defined name is a definable one; anything else is rejected
+//@ func NewFlagSet
+//@   requires reflKind(reflOfIface(pStruct)) == 22 && reflKind(reflElem(reflOfIface(pStruct))) == 25 ==> reflUser(reflElem(reflOfIface(pStruct)))
+//@   modifies region(userCell), ghostfields(lastSet), ghostfields(setCount)
+//@   ensures kind: reflKind(reflOfIface(pStruct)) != 22 || reflKind(reflElem(reflOfIface(pStruct))) != 25 ==> result0 == nil && result1 != nil
+//@   ensures fresh: result0 != nil ==> fresh(result0) && FD(result0) && result0.envKeyPrefix == "CFG_" && result0.b64ConfigEnv == "CFG_CONFIG_B64" && !result0.parsed && result0.valueConfigPath == "" && len(result0.args) == 0
+//@   ensures builtin: result0 != nil ==> has(result0.flagMap, "config") && typeIs(result0.flagMap["config"].Value, *stringValue) && ifaceRef(result0.flagMap["config"].Value) == &result0.valueConfigPath && has(result0.flagMap, "help") && ifaceRef(result0.flagMap["help"].Value) == &result0.valueShowUsage
+//@   ensures names: result0 != nil ==> forall k string {has(result0.flagMap, k)} :: has(result0.flagMap, k) ==> k == "help" || k == "config" || goodName(k)
+//@   loop 1
+//@     invariant -1 <= rangeindex && rangeindex < 2 && f != nil && fresh(f) && len(f.flagList) == rangeindex + 1 && f.flagMap != nil && fresh(f.flagMap) && fresh(arr(f.flagList)) && arr(f.flagList) != arr(slicelit_3)
+//@     invariant f.envKeyPrefix == "CFG_" && f.b64ConfigEnv == "CFG_CONFIG_B64" && !f.parsed && f.valueConfigPath == "" && len(f.args) == 0
+//@     invariant reflKind(reflOfIface(pStruct)) == 22 && reflKind(reflElem(reflOfIface(pStruct))) == 25 && structValue == reflElem(reflOfIface(pStruct)) && reflCanAddr(structValue) && reflExported(structValue)
+//@     invariant slicelit_3[0] != nil && slicelit_3[1] != nil && slicelit_3[0] != slicelit_3[1] && fresh(slicelit_3[0]) && fresh(slicelit_3[1]) && slicelit_3[0].Name == "help" && slicelit_3[1].Name == "config"
+//@     invariant ifaceRef(slicelit_3[0].Value) == &f.valueShowUsage && slicelit_3[0].Value != nil && typeIs(slicelit_3[1].Value, *stringValue) && ifaceRef(slicelit_3[1].Value) == &f.valueConfigPath && slicelit_3[1].Value != nil
+//@     invariant slicelit_3[0].ArgValue == nil && slicelit_3[0].EnvValue == nil && slicelit_3[1].ArgValue == nil && slicelit_3[1].EnvValue == nil
+//@     invariant forall i int {f.flagList[i]} :: 0 <= i && i <= rangeindex ==> f.flagList[i] == slicelit_3[i]
+//@     invariant forall k string {has(f.flagMap, k)} :: has(f.flagMap, k) ==> (k == "help" && rangeindex >= 0 && f.flagMap[k] == slicelit_3[0]) || (k == "config" && rangeindex >= 1 && f.flagMap[k] == slicelit_3[1])
+//@     invariant (rangeindex >= 0 ==> has(f.flagMap, "help")) && (rangeindex >= 1 ==> has(f.flagMap, "config"))
+//@     decreases 2 - rangeindex
